@@ -201,11 +201,12 @@ def insertDeep (x : Name) : List Name → List Name
   | y :: t => if x.length ≥ y.length then x :: y :: t else y :: insertDeep x t
 def deepFirst (l : List Name) : List Name := l.foldr insertDeep []
 
-/-- `CleanUpFace`: children first; every node loses its first route over `face`, then is pruned -/
+/-- `CleanUpFace`: children first; every node loses all its routes over `face` and, if it had any,
+    is pruned -/
 def Rib.cleanUp (r : Rib) (face : Nat) : Rib :=
   (deepFirst ([] :: r.nodes)).foldl (fun (r : Rib) n =>
-    if memb n ([] :: r.nodes) then
-      ({ r with routes := aset r.routes n (removeFirst (fun x => x.1 == face) (aget [] r.routes n)) } : Rib).pruneAt n
+    if memb n ([] :: r.nodes) && (aget [] r.routes n).any (fun x => x.1 == face) then
+      ({ r with routes := aset r.routes n ((aget [] r.routes n).filter (fun x => x.1 != face)) } : Rib).pruneAt n
     else r) r
 
 inductive RibOp where
